@@ -28,7 +28,9 @@ Inductive stmt :=
 | Action | Dots                       (* an action, the action "..." (not drawn) *)
 | Ret (k:retk)
 | Block (k:bkind) (body:list stmt)    (* Cond | Loop | LoopN | Foreach | Group: visitGroupStmt *)
-| Alt (choices:list (list stmt)).
+| Alt (choices:list (list stmt))
+| Nil.                                (* a statement whose `Stmt` oneof is not set: not from the parser, but a module read from
+                                         .pb / .textpb / JSON can hold one *)
 
 Inductive pat := PHuman | PUi | PCron | PDb | PExternal | PFile | PTopic | POther.
 Inductive agentk := Actor | Boundary | Control | Database | Collections | Queue.
@@ -47,8 +49,10 @@ Definition bbmap := list ((id * id) * upto).
 (* what the two facts read from the current source say (Gen/SeqShape.v) *)
 Record variant := {
   v_lookup_panics : bool;     (* application()/endpoint() panic on a missing target (else: return an error) *)
-  v_inprog_unguarded : bool   (* the in-progress branch of visitEndpoint calls Deactivate(agent) even when it
+  v_inprog_unguarded : bool;  (* the in-progress branch of visitEndpoint calls Deactivate(agent) even when it
                                  did not Activate (upto = nil) *)
+  v_nil_panics : bool         (* the default arm of visitStatment's type switch (a statement without `Stmt`) panics
+                                 (else: returns an error) *)
 }.
 
 (* ---- output ---- *)
@@ -105,7 +109,7 @@ Definition nonempty (k:retk) : bool := match k with RetEmpty => false | _ => tru
 (* one iteration of the loop: Some k = `return k` here, None = go on with the next statement *)
 Fixpoint ret_stmt (x:stmt) : option retk :=
   match x with
-  | Call _ _ | Action | Dots => None
+  | Call _ _ | Action | Dots | Nil => None  (* GetReturnPayload: no arm of its switch matches, the search goes on *)
   | Ret k => Some k
   | Block _ b =>
       let p := (fix go (l:list stmt) : retk :=
@@ -176,9 +180,13 @@ Definition sender_of (from:option id) : part := match from with Some a => P a | 
 Definition bind {A B} (o:outcome A) (f:A -> outcome B) : outcome B :=
   match o with Ok x => f x | Err => Err | Panic => Panic | OutOfFuel => OutOfFuel end.
 
+(* the default arm of visitStatment *)
+Definition nil_fail (np:bool) : outcome st := if np then Panic else Err.
+
 (* ---- visitStatment and the block visitors, for one expansion (agent a called by snd); `call` is visitCall ---- *)
 Section Walk.
   Variable call : st -> id -> id -> bool -> outcome st.   (* state, target app, target endpoint, isLastStmt *)
+  Variable np : bool.                                      (* v_nil_panics *)
   Variable a : id.
   Variable sndr : part.
 
@@ -189,6 +197,7 @@ Section Walk.
     | Action => Ok (emit s (Self a))
     | Dots => Ok s
     | Ret _ => Ok (emit s (Return sndr a))
+    | Nil => nil_fail np
     | Block k b =>
         bind ((fix go (s:st) (l:list stmt) (lastp:bool) {struct l} : outcome st :=
                  match l with
@@ -272,7 +281,7 @@ Section Gen.
           else
             let '(s3, cell) := activated s2 a (human || cron) in
             let s4 := push_visited s3 a e in
-            bind (walk_list (fun s t te last => visit_endpoint f bbs s (Some a) t te (Some (cell, last))) a sender
+            bind (walk_list (fun s t te last => visit_endpoint f bbs s (Some a) t te (Some (cell, last))) (v_nil_panics V) a sender
                             s4 (ep_body ep) true)
                  (fun s5 => Ok (pop_visited (fire s5 cell) a e))
         end
@@ -340,7 +349,7 @@ Definition fuel_for (m:module) : nat := S (n_endpoints m).
 Fixpoint calls_stmt (x:stmt) : list (id*id) :=
   match x with
   | Call t te => [(t, te)]
-  | Action | Dots | Ret _ => []
+  | Action | Dots | Ret _ | Nil => []
   | Block _ b => (fix go (l:list stmt) := match l with [] => [] | y :: r => calls_stmt y ++ go r end) b
   | Alt cs => (fix goc (l:list (list stmt)) :=
                  match l with [] => []
